@@ -112,6 +112,16 @@ def check_text(rep, drv, rng, text, model=None, points=None):
     for pt in pts:
         if failing:
             break
+        if model is not None:
+            # central differences need a neighbourhood without jumps: a comparison whose operands are exactly equal
+            # (allowed elsewhere when both are inputs / literals) is a jump here
+            try:
+                _, pr0 = pipeline._reference_once(model, pt, None, 0.0)
+                if pr0.margin_strict < 1e-4:
+                    rep.count("points_on_a_jump_skipped")
+                    continue
+            except (lang.Undefined, KeyError):
+                continue
         isx, st, ps = pipeline.inputs_sx(lay, pt)
         args = st + ps + [pt["t"]]
         with np.errstate(all="ignore"):
